@@ -160,9 +160,27 @@ func (c *vCluster) advMessage(kind int, name string) (raw *interfaces.ConsensusR
 //   1: honest leader 0 proposed A; every correct node prepared (locked on A); no COMMIT delivered yet
 //   2: as 1, then one correct node (the highest index) also received the COMMITs of the others plus a
 //      genuine COMMIT of the Byzantine member and committed A; the others did not commit
-//   3: as 1 or 2 (param) followed by an election timeout at every correct node that has not committed
+//   3 (Byzantine first leader only): equivocation X / Y in view 0 with the Y side committed (see below)
 func (c *vCluster) prefix(p int, timeouts int) {
 	thenTimeout := timeouts >= 1
+	if c.byz == 0 && p == 3 {
+		// listed concrete Byzantine action: the first leader equivocates - proposal X to the first correct node,
+		// proposal Y to the others; everything the correct nodes send is delivered; then the Byzantine COMMIT(Y)
+		// lets the Y side commit. The X side holds its proposal, its own PREPARE and the others' COMMIT(Y).
+		cs := c.correct()
+		x := &stub.Block{H: 1, Tag: 0x51, ProposalOK: true}
+		y := &stub.Block{H: 1, Tag: 0x53, ProposalOK: true}
+		c.nodes[cs[0]].deliver(c.wd.net.ppm(0, 1, 0, x).ToConsensusRawMessage())
+		for _, i := range cs[1:] {
+			c.nodes[i].deliver(c.wd.net.ppm(0, 1, 0, y).ToConsensusRawMessage())
+		}
+		c.flush(nil)
+		for _, i := range cs[1:] {
+			c.nodes[i].deliver(c.wd.net.cm(0, 1, 0, stub.HashOf(y)).ToConsensusRawMessage())
+		}
+		c.flush(nil)
+		return
+	}
 	if c.byz == 0 {
 		// Byzantine first leader: no honest proposal exists
 		if thenTimeout {
